@@ -346,9 +346,10 @@ def run_replay(path, timeout=300):
 
 def get_shape(module, name, tier="thorough"):
     mod = importlib.import_module(module)
-    for sh in mod.shapes(tier):
-        if sh.name == name:
-            return sh
+    for t in (tier, "quick"):
+        for sh in mod.shapes(t):
+            if sh.name == name:
+                return sh
     raise KeyError(name)
 
 
@@ -664,9 +665,11 @@ def run_property(prop, module, tier, level, assumptions, trusted=None, extra_cov
     t0 = time.time()
     seed = int(os.environ.get("VERIF_SEED", "0") or 0)
     mod = importlib.import_module(module)
-    n = len(mod.shapes(tier))
+    all_shapes = mod.shapes(tier)
+    n = len(all_shapes)
     nproc = nproc or min(int(os.environ.get("VERIF_NPROC", "16")), max(1, n))
-    jobs = [(module, tier, i, prop) for i in range(n)]
+    only = os.environ.get("VERIF_ONLY")  # development aid: substring filter on shape names; no evidence is written
+    jobs = [(module, tier, i, prop) for i in range(n) if not only or only in all_shapes[i].name]
     ctxm = mp.get_context("spawn")
     with ctxm.Pool(nproc, maxtasksperchild=20) as pool:
         outs = pool.map(run_shape, jobs, chunksize=1)
@@ -773,9 +776,10 @@ def run_property(prop, module, tier, level, assumptions, trusted=None, extra_cov
         "wall_s": round(wall, 2),
         "violations": len(seen),
     }
-    os.makedirs(EVIDENCE_DIR, exist_ok=True)
-    with open(os.path.join(EVIDENCE_DIR, f"{prop}.json"), "w") as f:
-        json.dump(ev, f, indent=1, default=str)
+    if not only:
+        os.makedirs(EVIDENCE_DIR, exist_ok=True)
+        with open(os.path.join(EVIDENCE_DIR, f"{prop}.json"), "w") as f:
+            json.dump(ev, f, indent=1, default=str)
     print(f"{prop} [{tier}] shapes={n} paths={programs} obligations={n_ob} verdicts={counts} "
           f"known={len(known_hits)} violations={len(seen)} inconclusive={len(inconclusive)} "
           f"solver_s={solver_s:.1f} wall_s={wall:.1f}")
